@@ -19,7 +19,9 @@ RULE = ("three grammar families: (1) random grammars with the left-recursion-avo
         "non-nullable B, under every relative name order of X, B, N1..Nk (30 orders); (5) LL(1) grammars "
         "to which a left-recursive symbol without any terminating alternative is added; (6) all 16 option "
         "sets of a ListProds template whose delimiter is a non-terminal (recursive iff item and delimiter "
-        "can both be empty). "
+        "can both be empty), both option sets of a ProdSequence with a member that can be empty, all 32 "
+        "option sets of a MapProds whose key / assignment / value / delimiter are non-terminals; 6% of the "
+        "random grammars also have a symbol with an empty production list. "
         "Oracle 1: the harness decides left recursion on the user's grammar by cycle search in the "
         "'can start with, behind nullable symbols' graph; constructor must raise GrammarIsRecursive iff a "
         "cycle exists, and nothing else (AssertionError is tolerated only for adjacent duplicate "
@@ -92,6 +94,14 @@ def make_case(ctx, rng, i):
             nt = rng.choice(sorted(prods))
             prods[nt] = prods[nt] + [(nt, rng.choice(terms)), (nt, rng.choice(terms), rng.choice(terms))]
         kind = "prefix-groups"
+    if rng.random() < 0.06 and not kind.startswith(("hidden-cycle", "right-recursion")):
+        # a symbol with an empty list of productions (legal: it simply never matches)
+        free = [n for n in gram.NT_NAMES + ['X', 'Y', 'Z'] if n not in prods]
+        if free:
+            prods[free[0]] = []
+            if rng.random() < 0.5:
+                nt = rng.choice([n for n in prods if prods[n]])
+                prods[nt] = prods[nt] + [(rng.choice(terms), free[0])]
     return cfg_id, terms, prods, start, kind
 
 
@@ -168,6 +178,82 @@ def run_list_template_case(ctx, mon, opts):
     ctx.nontrivial("list-template:" + repr(opts))
 
 
+def run_template_case(ctx, mon, kind, opts):
+    """ProdSequence with a member that can be empty / MapProds whose parts are non-terminals that can
+    be empty: left recursive through the symbols the template generates"""
+    if kind == "sequence":
+        member_nullable, = opts
+
+        def user_productions():
+            return {'E': [('[', 'SEQ', ']')],
+                    'SEQ': llparser.ProdSequence('w', 'OPT'),
+                    'OPT': [(',',)] + ([None] if member_nullable else [])}
+        expanded = {'E': [('[', 'SEQ', ']')], 'SEQ': [('ELEM', 'SEQ'), ()], 'ELEM': [('w',), ('OPT',)],
+                    'OPT': [(',',)] + ([()] if member_nullable else [])}
+        texts = ("[]", "[w]", "[w , w]", "[,]", "[", "")
+    else:
+        key_n, assign_n, val_n, delim_n, afd = opts
+
+        def user_productions():
+            return {'E': [('MAP',)],
+                    'MAP': llparser.MapProds('[', 'KEY', 'ASSIGN', 'VAL', 'DELIM', ']', allow_final_delimiter=afd),
+                    'KEY': [('w',)] + ([None] if key_n else []),
+                    'ASSIGN': [(',',)] + ([None] if assign_n else []),
+                    'VAL': [('w',)] + ([None] if val_n else []),
+                    'DELIM': [(',',)] + ([None] if delim_n else [])}
+        expanded = {'E': [('MAP',)], 'MAP': [('[', ']'), ('[', 'KV', 'ELEMENTS', ']')],
+                    'ELEMENTS': [('DELIM', 'KV', 'ELEMENTS')] + ([('DELIM',)] if afd else []) + [()],
+                    'KV': [('KEY', 'ASSIGN', 'VAL')],
+                    'KEY': [('w',)] + ([()] if key_n else []), 'ASSIGN': [(',',)] + ([()] if assign_n else []),
+                    'VAL': [('w',)] + ([()] if val_n else []), 'DELIM': [(',',)] + ([()] if delim_n else [])}
+        texts = ("[]", "[w , w]", "[w,w,w,w]", "[,]", "[w]", "")
+    cycle = gram.left_recursion_cycle(expanded)
+    case = {"kind": "template-" + kind, "opts": list(opts)}
+    for smart in (True, False):
+        ctx.evaluated()
+        mon.start_ctor(CTOR_LINE_BOUND)
+        try:
+            parser = llparser.LLParser(LIST_TOK, synonyms=LIST_SYN, productions=user_productions(),
+                                       smart_factorization=smart)
+        except llmon.CtorStepBoundExceeded:
+            ctx.violation("left-recursion-check-exceeds-step-bound", {"template": kind, "opts": list(opts)}, case)
+            continue
+        except llparser.GrammarIsRecursive:
+            if cycle is None:
+                ctx.violation("non-recursive-grammar-rejected", {"template": kind, "opts": list(opts)}, case)
+            else:
+                ctx.count("left_recursive_rejected")
+            continue
+        except llparser.GrammarError as err:
+            ctx.count("template_grammar_error(out of domain)")
+            continue
+        except Exception as err:
+            ctx.violation("constructor-raises-other-exception",
+                          {"template": kind, "type": type(err).__name__, "msg": str(err)[:120]}, case)
+            continue
+        if cycle is not None:
+            ctx.violation("left-recursive-grammar-accepted", {"template": kind, "opts": list(opts), "cycle": cycle}, case)
+        ctx.count("accepted_grammars")
+        for text in texts:
+            ctx.evaluated()
+            mon.reset()
+            mon.stack_bound = (len(text) + 3) * (len(parser.prods_map) + 2)
+            try:
+                parser.parse(text)
+            except llparser.Error:
+                pass
+            except llmon.StackBoundExceeded as err:
+                ctx.violation("parse-stack-grows-without-bound", {"text": text, "stack_len": int(str(err))}, case)
+            except llmon.BudgetExceeded:
+                ctx.inconclusive_note("step budget exceeded")
+            except (Exception, MemoryError, RecursionError) as err:
+                ctx.violation("parse-raises-other-exception", {"text": text, "type": type(err).__name__}, case)
+            finally:
+                mon.stack_bound = None
+                ctx.count("pushes_observed", mon.pushes)
+    ctx.nontrivial("template:" + kind + repr(opts))
+
+
 def add_useless_left_recursive_symbol(rng, terms, prods):
     """a symbol without any terminating alternative (so its productions get no table entries)
     that is left recursive; the rest of the grammar stays as it is"""
@@ -226,6 +312,10 @@ def run_case(ctx, mon, cfg_id, terms, prods, start, kind, inputs_spec=None, rng=
             continue
         except RecursionError as err:
             ctx.violation("constructor-recursion-error", detail, base_case)
+            continue
+        except Exception as err:
+            ctx.violation("constructor-raises-other-exception",
+                          dict(detail, type=type(err).__name__, msg=str(err)[:120]), base_case)
             continue
         if cycle is not None:
             ctx.violation("left-recursive-grammar-accepted", detail, base_case)
@@ -292,6 +382,10 @@ def run_shard(ctx):
         if ctx.shard == 0:
             for opts in itertools.product((False, True), repeat=4):
                 run_list_template_case(ctx, mon, opts)
+            for opts in itertools.product((False, True), repeat=1):
+                run_template_case(ctx, mon, "sequence", opts)
+            for opts in itertools.product((False, True), repeat=5):
+                run_template_case(ctx, mon, "map", opts)
         for i in range(ctx.cases):
             rng = ctx.rng(i)
             cfg_id, terms, prods, start, kind = make_case(ctx, rng, i)
@@ -315,6 +409,9 @@ def replay(ctx, case):
     try:
         if case.get("kind") == "list-template":
             run_list_template_case(ctx, mon, tuple(case["opts"]))
+            return
+        if str(case.get("kind", "")).startswith("template-"):
+            run_template_case(ctx, mon, case["kind"][len("template-"):], tuple(case["opts"]))
             return
         prods = {k: [tuple(a) for a in v] for k, v in case["prods"].items()}
         run_case(ctx, mon, case["cfg"], case["terms"], prods, case["start"], case["kind"],
